@@ -9,7 +9,7 @@ exactly when `expr` is a string literal or a path — else `Default::default()` 
 def docFieldDefault (f : FieldE) : DefVal :=
   match f.h.dflt with
   | some { value := some (e, cls), .. } =>
-    if cls == .strLit || cls == .path then .into f.field.ty e else .raw e
+    if cls == .strLit || cls == .path then .into f.field.ty e else .raw e (cls == .blockLead)
   | _ => .dflt f.field.ty
 
 theorem defaultCtorArgs_vals (fields : List FieldE) (use : Bool) (w : WCB) :
@@ -42,7 +42,7 @@ theorem defaultCtorArgs_vals (fields : List FieldE) (use : Bool) (w : WCB) :
 /-- the Into / no-Into boundary -/
 theorem into_iff_strlit_or_path (a : DefaultH) (ty : Ty) (e : Toks) (cls : ExprClass)
     (h : a.value = some (e, cls)) :
-    a.valueFor ty = some (if cls == .strLit || cls == .path then .into ty e else .raw e) := by
+    a.valueFor ty = some (if cls == .strLit || cls == .path then .into ty e else .raw e (cls == .blockLead)) := by
   simp [DefaultH.valueFor, h]
 
 /-- struct: the type-level `#[default(expr)]` if given, otherwise the struct with every field
